@@ -94,3 +94,27 @@ class FiniteTask:
             out["error"] = traceback.format_exc()
         out["wall_s"] = time.time() - t0
         return out
+
+
+class NativeBoundedTask(FiniteTask):
+    """bounded stand-in executed NATIVELY (CPython, real library code and real third-party libraries): the property's replay
+    harness is run with the pseudo-obligation `<prop>/bounded-native:<what>`; labelled bounded, never counted as proved.  Used
+    where the proof rests on an assumed library contract (pydicom codec, zlib) that no contract here can reach."""
+    backend = "bounded-native"
+
+    def __init__(self, prop, what, functions=(), timeout=300):
+        self.prop, self.what = prop, what
+        self.name = f"bounded-native/{what}"
+        self.functions = list(functions)
+        self.timeout = timeout
+
+    def check(self, repo, emit):
+        from .replay import run_replay
+        oid = f"{self.prop}/bounded-native:{self.what}"
+        r = run_replay(self.prop, {"id": oid}, timeout=self.timeout)
+        if r.get("reproduced") is False:
+            emit(oid, True, detail=r.get("note"))
+        elif r.get("reproduced") is True:
+            emit(oid, False, detail={k: v for k, v in r.items() if k != "reproduced"}, model=r.get("input"))
+        else:
+            raise Unsupported(f"native bounded check gave no verdict: {r.get('note')}")
